@@ -42,6 +42,24 @@ def fold_const(x, depth=0):
         c = strip(x.a[1][0])
         if c.k == "const" and isinstance(c.a[0], bytes):
             return len(c.a[0])
+    if x.k == "call" and x.a[0].name == "size_of" and x.a[0].krate in ("core", "std") and not x.a[1] and x.a[0].targs:
+        return size_of_type(x.a[0].targs[0])
+    return None
+
+
+def size_of_type(t):
+    """size in bytes of a type whose layout is fixed by the language: uN/iN, bool, arrays of those"""
+    import re
+    k = t.get("k")
+    s_ = t.get("s", "")
+    m = re.match(r"^[ui](8|16|32|64|128)$", s_)
+    if m:
+        return int(m.group(1)) // 8
+    if s_ == "bool":
+        return 1
+    if k == "array" and isinstance(t.get("n"), int) and t.get("of"):
+        e = size_of_type(t["of"])
+        return None if e is None else e * t["n"]
     return None
 
 
